@@ -344,7 +344,7 @@ def table_dw(ctx):
 # ------------------------------------------------------------------ escape table (C07, C09, C10)
 
 ESCAPE = "re_compiler::ReCompiler::escape"
-ESC_CH = "a1.pattern[sub(add(2, a1.idx), 1)]"
+ESC_CH = "a1.pattern[add(1, a1.idx)]"
 ESC_CH2 = "a1.pattern[sub(add(a1.idx, 2), 1)]"
 
 
